@@ -2,7 +2,7 @@
 import someip.sd as SD
 from contracts import spec_header as SH  # noqa: F401  (contracts of the SOME/IP codec)
 from contracts import spec_sdcodec as SC  # noqa: F401  (contracts of the SD codec)
-from contracts.common import gen_addr
+from contracts.common import check_frame, gen_addr
 
 ID_MAX = 0xFFFF
 
@@ -133,6 +133,21 @@ def ob_assign_outgoing_refines(vc):
         vc.check(o1.value[1] >= 1 and o1.value[1] <= ID_MAX, "assign_outgoing.id_in_range")
 
 
+def ob_assign_outgoing_twice(vc):
+    """two consecutive calls (same or different destinations) against the contract applied
+    twice: whatever the first call leaves behind -- in the tables or anywhere else -- the
+    second one still behaves as specified (a history of length two from an arbitrary state)"""
+    a, b = gen_storage(vc, "st")
+    r1 = None if vc.bool("first_is_none") else gen_addr(vc, "r1")
+    r2 = None if vc.bool("second_is_none") else gen_addr(vc, "r2")
+    vc.outcome(vc.body(SD._SessionStorage.assign_outgoing), a, r1)
+    vc.outcome(assign_outgoing, b, r1)
+    o1 = vc.outcome(vc.body(SD._SessionStorage.assign_outgoing), a, r2)
+    o2 = vc.outcome(assign_outgoing, b, r2)
+    vc.same_outcome(o1, o2, "assign_outgoing.second_call_refines")
+    vc.check_eq(a.outgoing, b.outgoing, "assign_outgoing.outgoing_after_two_calls")
+
+
 # ---------------------------------------------------------------------------- ServiceDiscoveryProtocol.send_sd
 import someip.header as H  # noqa: E402
 
@@ -201,7 +216,9 @@ def ob_send_sd_refines(vc):
     else:
         remote = gen_addr(vc, "remote")
     drawn = vc.spy(sa, "assign_outgoing")
+    heap = vc.snapshot(prot=a)
     o1 = vc.outcome(vc.body(SD.ServiceDiscoveryProtocol.send_sd), a, list(entries), remote)
+    check_frame(vc, heap, "send_sd", ("prot.session_storage.outgoing",))
     o2 = vc.outcome(send_sd, b, list(entries), remote)
     vc.same_outcome(o1, o2, "send_sd.refines")
     vc.check_eq(len(sent_a), len(sent_b), "send_sd.refines.number_of_datagrams")
@@ -277,7 +294,9 @@ def ob_sd_message_received(vc):
     msg = SH.gen_message(vc, "msg")
     addr = gen_addr(vc, "addr")
     multicast = vc.bool("multicast")
+    heap = vc.snapshot(prot=prot)
     o = vc.outcome(vc.body(SD.ServiceDiscoveryProtocol.message_received), prot, msg, addr, multicast)
+    check_frame(vc, heap, "sd.message_received", ("prot.session_storage.incoming",))
     parsed = vc.outcome(H.SOMEIPSDHeader.parse, msg.payload) if is_sd_notification(msg) else None
     region = ""
     if parsed is not None and vc.is_exc(parsed, UnicodeDecodeError):
@@ -367,7 +386,9 @@ def ob_sd_message_dispatch(vc):
     addr = gen_addr(vc, "addr")
     multicast = vc.bool("multicast")
     vc.arm_cut(SD.ServiceDiscoveryProtocol.sd_message_received, 0)
+    heap = vc.snapshot(prot=prot)
     o = vc.outcome(vc.body(SD.ServiceDiscoveryProtocol.sd_message_received), prot, sdhdr, addr, multicast)
+    check_frame(vc, heap, "sd_message_received", ())
     vc.check(o.kind != "raise", "sd_message_received.never_raises")
     pend = loop.pending()
     if vc.native:
